@@ -106,6 +106,19 @@ CHECKS = {
         note='Bounded document length; block-permutation invariance is not yet an invariant of the model; D11 '
              '(incomplete instruction takes the next non-empty line) is an open known finding with an input signature.',
         design='5/C07'),
+    'C05': dict(
+        engine='spec/Text.tla, spec/TextExport.tla',
+        technique='TLC enumeration of every text up to a length bound with a TLA+ transcription of the documented '
+                  'transformer / matcher semantics (incl. a Python-regex family with greedy backtracking) + replay of '
+                  'every (text, operation) pair through the real CLI for three kinds of text source',
+        text='Texts, lines, strip variants, char-case, filter, grep, replace (with -preserve-new-lines and -at), |, and '
+             'the matchers is-empty, equals, matches [-full], num-lines, every/any line, -transformed-by, !, &&, || are '
+             'recursive TLA+ operators; TLC checks algebraic laws in every state and exports, per text, the output of '
+             '~400 transformers and the verdict of ~150 matchers; each text is one real test case holding all of them, '
+             'from a file, from the action\'s stdout and from a string literal.',
+        note='Bounded text length (4-5 over {a,b,blank,NL}, 7-10 over {a,NL}); regex family only (atoms, quantifiers, '
+             'anchors, -ignore-case; no groups); characters beyond \\n that splitlines breaks on belong to C14.',
+        design='5/C05'),
 }
 
 NOT_YET = 'check not built yet (planned in DESIGN.md section 5); no claim is made'
